@@ -93,8 +93,10 @@ Definition str_in (s : string) (l : list string) : bool := existsb (String.eqb s
 Definition arg_safe (a : string) : bool :=
   negb (mentions "Pass" a) && negb (mentions "pass" a) && negb (mentions "PASS" a)
   && negb (mentions "conn.out" a) && negb (mentions "rawline" a)
-  && (negb (mentions "cfg." a)
-      || str_in a ["conn.cfg.Server"; "conn.cfg.Proxy"; "cfg.LocalAddr"]%string).
+  && (negb (mentions "cfg" a) && negb (mentions "Config" a)
+      || str_in a ["conn.cfg.Server"; "conn.cfg.Proxy"; "cfg.LocalAddr"]%string)
+  (* nor a whole client object (its Config holds the password) *)
+  && negb (String.eqb a "conn") && negb (String.eqb a "*conn").
 
 Definition call_safe (c : log_call) : bool :=
   str_in (lc_level c) ["Debug"; "Info"; "Warn"; "Error"]%string
